@@ -2,7 +2,8 @@
 """prints the markdown of DESIGN.md section 8.1 from seeded/*/*/{meta,verified,check_result}.json and seeded/FIRST_RUN.json"""
 import glob, json, os, re
 HERE = os.path.dirname(os.path.dirname(os.path.abspath(__file__)))
-FIRST = json.load(open(os.path.join(HERE, 'seeded', 'FIRST_RUN.json')))['missed']
+_FR = json.load(open(os.path.join(HERE, 'seeded', 'FIRST_RUN.json')))
+FIRST = dict(_FR['missed'], **_FR.get('batch2_missed', {}))
 rows = []
 for d in sorted(glob.glob(os.path.join(HERE, 'seeded', 'C*', '*'))):
     if not os.path.isdir(d):
@@ -32,6 +33,12 @@ for d in sorted(glob.glob(os.path.join(HERE, 'seeded', 'C*', '*'))):
     m = re.search(r'regressed (\d+)', suite)
     rows.append((cid, what, 'reported' if res.get('exit') == 1 else 'NOT reported', '; '.join(by), ('missed → ' + FIRST[cid]) if cid in FIRST else 'caught',
                  ('suite ok' if m and m.group(1) == '0' else ('suite: ' + suite[:40] if suite and suite != 'skipped' else 'suite run by the author only'))))
+def _batch(cid):
+    return 2 if cid.split('/')[1] in ('4', '5') else 1
+for bno in (1, 2):
+    sub = [r for r in rows if _batch(r[0]) == bno]
+    print(f'Batch {bno}: {len(sub)} changes, {sum(1 for r in sub if r[4] == "caught")} reported by the first run, {sum(1 for r in sub if r[4] != "caught")} missed at first; '
+          f'{sum(1 for r in sub if r[2] == "reported")} reported today.\n')
 print(f'{len(rows)} changes were kept (demo passes on the clean tree and fails with the change: re-confirmed here in a scratch worktree for every one; stable suite re-run here '
       f'for {sum(1 for r in rows if r[5] == "suite ok")} of them, for the rest the author\'s own `regressed 0` run is recorded in `meta.json`). '
       f'{sum(1 for r in rows if r[2] == "reported")} are reported by the quick check of their property today; {sum(1 for r in rows if r[4] != "caught")} were missed by the first run.\n')
